@@ -174,7 +174,12 @@ def intoMap (dflt : Val) : Val → Out (Option KVs)
 def ifaceEq : Val → Val → Option Bool
   | .seq _, .seq _ => none
   | .map _, .map _ => none
-  | a, b => some (a == b)
+  | .null, .null => some true
+  | .bool a, .bool b => some (a == b)
+  | .int a, .int b => some (a == b)
+  | .float a, .float b => some (a == b)
+  | .str a, .str b => some (a == b)
+  | _, _ => some false
 
 /-- `slices.Contains(xs, v)` with interface `==` (stops at the first hit) -/
 def containsIface (v : Val) : List Val → Option Bool
